@@ -3,7 +3,19 @@ as a fresh subprocess under a chosen PYTHONHASHSEED)."""
 import sys, json, copy
 
 
-def run_history(pool, hist, cfg):
+def run_history(pool, hist, cfg, files=None):
+    import os, tempfile, shutil
+    if files:
+        W = tempfile.mkdtemp(prefix="sess", dir=os.environ.get("VERIF_SCRATCH"))
+        cwd = os.getcwd()
+        try:
+            for fn, text in files.items():
+                open(os.path.join(W, fn), "w").write(text)
+            os.chdir(W)
+            return run_history(pool, hist, cfg)
+        finally:
+            os.chdir(cwd)
+            shutil.rmtree(W, ignore_errors=True)
     from harness import asmio
     events = []
     for s in hist:
@@ -18,7 +30,7 @@ def run_history(pool, hist, cfg):
 
 def main():
     job = json.loads(sys.stdin.read())
-    sys.stdout.write(json.dumps(run_history(job["pool"], job["hist"], job["cfg"])))
+    sys.stdout.write(json.dumps(run_history(job["pool"], job["hist"], job["cfg"], job.get("files"))))
 
 
 if __name__ == "__main__":
